@@ -13,6 +13,8 @@ from mc import core
 from mc import shapes
 import vfx
 from vfx import nodes as N
+from vfx.pa import common as pa_common
+from vfx.pb import common as pb_common
 
 PROP = 'C09'
 LEVEL = 'model_checking'
@@ -184,6 +186,9 @@ def leaf_values():
   out += [collections.defaultdict(list, {'a': [1]}),
           collections.defaultdict(None, {1: 2}),
           collections.defaultdict(N.node)]
+  # registered by-value constants and the primitives they are equal to
+  out += [N.HALF, N.ONE, N.AUTO, 1, 1.0, 'auto', [0.5, N.HALF, 'auto', N.AUTO],
+          {0.5: 'half', 'auto': 1, 1: 'one'}]
   out += [fdl.NO_VALUE, N.CONST, N.DictObj([1], N.CONST),
           N.DictObj(N.DictObj(1, 2), {'k': 3})]
   out += [int, N.Base, N.node, N.Pair, len, dict, N.Base.__init__,
@@ -270,19 +275,25 @@ def kinds():
       'ddict1': K('ddict1', 1, False, lambda v: collections.defaultdict(
           list, {'a': v[0]})),
       'dobj': K('dobj', 2, False, lambda v: N.DictObj(*v)),
+      # different callables / classes with the same name in two modules
+      'pa_thing': K('pa_thing', 2, True, mk(fdl.Config, pa_common.Thing), True),
+      'pb_thing': K('pb_thing', 2, True, mk(fdl.Config, pb_common.Thing), True),
+      'pa_make': K('pa_make', 2, True, mk(fdl.Partial, pa_common.make), True),
   }
 
 
 FULL = ['cfg', 'cls', 'par', 'argf', 'pos', 'tv', 'list2', 'tuple2', 'dict2',
         'set1', 'nt', 'ddict1', 'dobj']
 SMALL = ['cfg', 'par', 'list2', 'dict2', 'dobj']
+SAMENAME = ['pa_thing', 'pb_thing', 'pa_make', 'list2']
 SHAPE_LEAVES = ['L1', N.Color.RED]
 
 
 def all_shape_cases(b):
   kk = kinds()
   seen = set()
-  for menu, n, nl in ([FULL, b['n'], 2], [SMALL, b['n_small'], 1]):
+  for menu, n, nl in ([FULL, b['n'], 2], [SMALL, b['n_small'], 1],
+                      [SAMENAME, 3, 1]):
     for s in shapes.all_shapes([kk[m] for m in menu], n, nl):
       if s not in seen:
         seen.add(s)
